@@ -314,10 +314,20 @@ func driverRT(c *Ctx) {
 		b := m.ToBytes()
 		if how == "incomplete" {
 			c.emit(i, J{"ev": "enc", "how": how, "msg": projMsg(m), "bytes": bytesJ(b)})
+			// ... and still does when it is asked again
+			c.emit(i, J{"ev": "enc", "how": how, "msg": projMsg(m), "bytes": bytesJ(m.ToBytes())})
 			c.count("rt.incomplete")
 			continue
 		}
+		if i%2 == 1 {
+			// encoding is a function of the message: the second answer is the one judged here
+			scribbleBytes(b)
+			b = m.ToBytes()
+		}
 		prev = b
+		if i%4 == 3 {
+			poisonDecode(g)
+		}
 		ev := decodeEvent(b)
 		ev["ev"] = "rt"
 		ev["how"] = how
@@ -752,6 +762,7 @@ func driverRTReplay(c *Ctx) {
 		}
 		gm := &GMsg{Name: "", S: cs.Msg.S, F: cs.Msg.F, W: cs.Msg.W, Dir: "H<->E", Sid: cs.Msg.Sid, Sys: unJ(cs.Msg.Sys)}
 		m := buildComplete(g, gm, item, g.pick(2))
+		scribbleBytes(gm.Sys) // the caller goes on using its buffer: the message carries its own system bytes
 		ev := decodeEvent(m.ToBytes())
 		ev["ev"] = "rt"
 		ev["how"] = "replay"
